@@ -25,7 +25,16 @@ func TestC20(t *testing.T) {
 	if only := os.Getenv("VERIF_CASE"); only != "" {
 		var c int
 		fmt.Sscan(only, &c)
-		scenario(rec, c)
+		switch os.Getenv("VERIF_FAMILY") {
+		case "lagging":
+			rejoinThroughLaggingMember(rec, c)
+		case "rejoin":
+			rejoinThenLaterJoin(rec, c)
+		case "down":
+			removalWhileMemberDown(rec, c)
+		default:
+			scenario(rec, c)
+		}
 		return
 	}
 	for c := 0; c < n; c++ {
@@ -38,7 +47,317 @@ func TestC20(t *testing.T) {
 		if rec.Mine(c + 2) {
 			rejoinThroughLaggingMember(rec, c)
 		}
+		if rec.Mine(c + 4) {
+			rejoinThenLaterJoin(rec, c)
+		}
+		if rec.Mine(c + 6) {
+			removalWhileMemberDown(rec, c)
+		}
 	}
+}
+
+// common scaffolding of the two scenarios below
+type run struct {
+	rec   *mon.Recorder
+	cl    *sim.Cluster
+	desc  string
+	c     int
+	steps []string
+}
+
+func (r *run) note(s string) { r.steps = append(r.steps, s) }
+func (r *run) replay() map[string]interface{} {
+	return map[string]interface{}{"case": r.c, "seed": r.rec.Seed(), "desc": r.desc, "steps": r.steps}
+}
+
+// startMembers joins nodes idx... one after the other and waits until the first k list each other
+func (r *run) startMembers(upto int) bool {
+	for i := 0; i < upto; i++ {
+		if err := r.cl.StartNode(i); err != nil {
+			r.rec.Inconclusive(fmt.Sprintf("%s: node %d: %v", r.desc, i+1, err))
+			return false
+		}
+		if i == 0 && r.cl.WaitFor(20*time.Second, func() bool { return r.cl.Nodes[0].ZeroLeader() != 0 }) != nil {
+			r.rec.Inconclusive(r.desc + ": node 1 never led the zero group")
+			return false
+		}
+		if r.cl.WaitMembership(i+1, 20*time.Second) != nil {
+			r.rec.Inconclusive(fmt.Sprintf("%s: the first %d nodes do not list each other", r.desc, i+1))
+			return false
+		}
+	}
+	// a joiner's book is filled by the join reply; wait until every member has
+	// also received and applied the membership log itself
+	if r.cl.WaitFor(20*time.Second, func() bool {
+		var commit uint64
+		for _, n := range r.cl.Nodes[:upto] {
+			if st := n.In.ZeroGroup.VerifStatus(); st.Commit > commit {
+				commit = st.Commit
+			}
+		}
+		for _, n := range r.cl.Nodes[:upto] {
+			if n.In.ZeroGroup.VerifStatus().Applied < commit {
+				return false
+			}
+		}
+		return commit > 0
+	}) != nil {
+		r.rec.Inconclusive(fmt.Sprintf("%s: the first %d nodes did not all apply the membership log", r.desc, upto))
+		return false
+	}
+	r.note(fmt.Sprintf("%d nodes joined and caught up", upto))
+	return true
+}
+
+// converge waits until every node of `live` lists exactly `want`; on a timeout it
+// separates stuck from slow: a member whose zero-group applied index does not
+// move during a second window while it is behind the others is stuck.
+func (r *run) converge(live []*sim.Node, want map[uint64]string, phase string, sym func(n *sim.Node, bad string) string) bool {
+	check := func() (*sim.Node, string) {
+		for _, n := range live {
+			var b map[uint64]string
+			if !r.cl.Guard(5*time.Second, func() { b = book(n) }) {
+				return n, "address book not readable (lock never released)"
+			}
+			for id, addr := range want {
+				got, ok := b[id]
+				if !ok {
+					return n, fmt.Sprintf("member %d is not listed", id)
+				}
+				if got != addr {
+					return n, fmt.Sprintf("member %d listed with address %q, announced %q", id, got, addr)
+				}
+			}
+			for id := range b {
+				if _, ok := want[id]; !ok {
+					return n, fmt.Sprintf("node %d is listed although it is not a member", id)
+				}
+			}
+		}
+		return nil, ""
+	}
+	if r.cl.WaitFor(30*time.Second, func() bool { n, _ := check(); return n == nil }) == nil {
+		r.rec.Count("books_checked", int64(len(live)))
+		return true
+	}
+	// second window: is the lagging member still moving?
+	n, bad := check()
+	if n == nil {
+		r.rec.Count("books_checked", int64(len(live)))
+		return true
+	}
+	applied := func() uint64 {
+		var a uint64
+		r.cl.Guard(3*time.Second, func() { a = n.In.ZeroGroup.VerifStatus().Applied })
+		return a
+	}
+	a0 := applied()
+	if r.cl.WaitFor(20*time.Second, func() bool { m, _ := check(); return m == nil }) == nil {
+		r.rec.Count("books_checked", int64(len(live)))
+		return true
+	}
+	n2, bad2 := check()
+	if n2 == nil {
+		return true
+	}
+	if n2 != n || applied() != a0 {
+		r.rec.Inconclusive(fmt.Sprintf("%s: %s: views still moving after 50 s (node %d: %s)", r.desc, phase, n2.Id, bad2))
+		return false
+	}
+	rp := r.replay()
+	rp["node"], rp["expected"], rp["diag"] = n.Id, fmtBook(want), r.cl.Diag()
+	r.rec.Violation(sym(n, bad)+":"+phase, fmt.Sprintf("%s: node %d %s: %s; its membership log has not moved for 20 s (applied index %d)%s", r.desc, n.Id, phase, bad, a0, r.cl.Diag()), rp)
+	return false
+}
+
+func bookSym(n *sim.Node, bad string) string {
+	switch {
+	case containsStr(bad, "not listed"):
+		return "book:member-missing"
+	case containsStr(bad, "not a member"):
+		return "book:removed-node-listed"
+	case containsStr(bad, "address"):
+		return "book:wrong-address"
+	}
+	return "book:wrong"
+}
+
+// A node is removed, shut down, and later joins again under its old id and
+// address; afterwards a further node joins. Every member - the re-joined one
+// included, which can only learn of the later join through the membership log
+// - must end up listing all of them.
+func rejoinThenLaterJoin(rec *mon.Recorder, c int) {
+	r := &run{rec: rec, c: c, desc: fmt.Sprintf("rejoin-then-later-join case=%d nodes=4", c)}
+	rec.Current(r.desc)
+	rng := rec.Rand("c20-rejoin", c)
+	r.cl = sim.New(sim.Options{Nodes: 4, Dir: os.Getenv("VERIF_SCRATCH") + fmt.Sprintf("/c20j-%d", c), TickEvery: 5 * time.Millisecond, Seed: rec.Seed() + int64(c), NoJoinBarrier: true})
+	defer r.cl.Close()
+	if !r.startMembers(3) {
+		return
+	}
+	cl := r.cl
+	victim := cl.Nodes[1+rng.Intn(2)]
+	via := cl.Nodes[0]
+	// datasets replicated on all three members: the victim's removal is also
+	// written into their partition groups' own membership logs
+	for i := 0; i < 1+rng.Intn(2); i++ {
+		if _, _, err := cl.CreateDataset(rng.Intn(3), 2, uint32(1+rng.Intn(2)), 3, pb.Space_Euclidean); err != nil {
+			rec.Inconclusive(r.desc + ": create dataset: " + err.Error())
+			return
+		}
+	}
+	r.note("datasets with 3 replicas created")
+	var err error
+	if !cl.Guard(20*time.Second, func() { err = via.In.NodesManager.RemoveNode(victim.Id) }) || err != nil {
+		rec.Inconclusive(fmt.Sprintf("%s: removal of node %d not acknowledged: %v", r.desc, victim.Id, err))
+		return
+	}
+	r.note(fmt.Sprintf("removal of %d acknowledged", victim.Id))
+	cl.Crash(victim.Idx)
+	cl.Teardown(victim.Idx)
+	want := map[uint64]string{}
+	var live []*sim.Node
+	for _, n := range cl.Nodes[:3] {
+		if n != victim {
+			want[n.Id] = n.Addr
+			live = append(live, n)
+		}
+	}
+	if !r.converge(live, want, "after-removal", bookSym) {
+		return
+	}
+	if c%2 == 1 {
+		// the remaining members also restart in between (their transport state is rebuilt)
+		other := live[len(live)-1]
+		if err := cl.Restart(other.Idx); err != nil {
+			rec.Inconclusive(fmt.Sprintf("%s: restart of node %d: %v", r.desc, other.Id, err))
+			return
+		}
+		r.note(fmt.Sprintf("restart of %d", other.Id))
+	}
+	if err := cl.StartNode(victim.Idx); err != nil {
+		rec.Inconclusive(fmt.Sprintf("%s: re-join of node %d: %v", r.desc, victim.Id, err))
+		return
+	}
+	r.note(fmt.Sprintf("re-join of %d acknowledged", victim.Id))
+	want[victim.Id] = victim.Addr
+	live = append(live, victim)
+	if err := cl.StartNode(3); err != nil {
+		rec.Inconclusive(fmt.Sprintf("%s: join of node 4: %v", r.desc, err))
+		return
+	}
+	r.note("join of 4 acknowledged")
+	want[4] = cl.Nodes[3].Addr
+	live = append(live, cl.Nodes[3])
+	rec.Count("rejoin_then_later_join_histories", 1)
+	// the members that never left: first as they are, then after one of them
+	// restarted and replayed all its logs (zero group and partition groups)
+	var stayed []*sim.Node
+	for _, n := range live {
+		if n != victim {
+			stayed = append(stayed, n)
+		}
+	}
+	if !r.converge(stayed, want, "on-the-members-that-stayed-after-rejoin-and-a-later-join", bookSym) {
+		return
+	}
+	time.Sleep(300 * time.Millisecond) // let the partition groups apply their own membership changes
+	rs := stayed[rng.Intn(2)]
+	if err := cl.Restart(rs.Idx); err != nil {
+		rec.Inconclusive(fmt.Sprintf("%s: restart of node %d: %v", r.desc, rs.Id, err))
+		return
+	}
+	r.note(fmt.Sprintf("restart of %d (replays the zero log and its partition logs)", rs.Id))
+	if cl.WaitFor(20*time.Second, func() bool {
+		for _, g := range rs.In.ZeroGroup.VerifTransport().VerifGroups() {
+			st := g.VerifStatus()
+			if st.Applied < st.Commit {
+				return false
+			}
+		}
+		return true
+	}) != nil {
+		rec.Inconclusive(fmt.Sprintf("%s: restarted node %d did not re-apply its logs", r.desc, rs.Id))
+		return
+	}
+	if !r.converge(stayed, want, "after-restart-of-a-member-that-replays-partition-logs-holding-the-old-removal", bookSym) {
+		return
+	}
+	rec.Seen("phases", "after-restart-of-a-member-that-replays-partition-logs-holding-the-old-removal")
+	if !r.converge(live, want, "after-rejoin-and-a-later-join", func(n *sim.Node, bad string) string {
+		if n == victim {
+			return "book:rejoined-member-does-not-follow-the-membership-log"
+		}
+		return bookSym(n, bad)
+	}) {
+		return
+	}
+	rec.Seen("phases", "after-rejoin-and-a-later-join")
+	rec.Case(mon.Digest(r.desc, victim.Id), true)
+}
+
+// A member is down while another node is removed and the membership log is
+// compacted; when it returns it is caught up by the leader's snapshot and must
+// stop listing the removed node.
+func removalWhileMemberDown(rec *mon.Recorder, c int) {
+	r := &run{rec: rec, c: c, desc: fmt.Sprintf("removal-while-member-down case=%d nodes=4", c)}
+	rec.Current(r.desc)
+	rng := rec.Rand("c20-down", c)
+	r.cl = sim.New(sim.Options{Nodes: 4, Dir: os.Getenv("VERIF_SCRATCH") + fmt.Sprintf("/c20d-%d", c), TickEvery: 5 * time.Millisecond, Seed: rec.Seed() + int64(c), NoJoinBarrier: true})
+	defer r.cl.Close()
+	if !r.startMembers(4) {
+		return
+	}
+	cl := r.cl
+	perm := rng.Perm(3)
+	lag, gone := cl.Nodes[1+perm[0]], cl.Nodes[1+perm[1]]
+	cl.Crash(lag.Idx)
+	cl.Teardown(lag.Idx)
+	r.note(fmt.Sprintf("node %d down", lag.Id))
+	var err error
+	if !cl.Guard(20*time.Second, func() { err = cl.Nodes[0].In.NodesManager.RemoveNode(gone.Id) }) || err != nil {
+		rec.Inconclusive(fmt.Sprintf("%s: removal of node %d not acknowledged: %v", r.desc, gone.Id, err))
+		return
+	}
+	r.note(fmt.Sprintf("removal of %d acknowledged while %d is down", gone.Id, lag.Id))
+	cl.Crash(gone.Idx)
+	cl.Teardown(gone.Idx)
+	want := map[uint64]string{}
+	var up []*sim.Node
+	for _, n := range cl.Nodes {
+		if n != gone {
+			want[n.Id] = n.Addr
+			if n != lag {
+				up = append(up, n)
+			}
+		}
+	}
+	if !r.converge(up, want, "after-removal-with-a-member-down", bookSym) {
+		return
+	}
+	compacted := c%3 != 2
+	if compacted {
+		for _, n := range up {
+			cl.TriggerSnapshot(n, uuid.Nil, 0)
+		}
+		time.Sleep(150 * time.Millisecond)
+		r.note("membership log compacted on the members that are up")
+	}
+	if err := cl.StartNode(lag.Idx); err != nil {
+		rec.Inconclusive(fmt.Sprintf("%s: node %d did not come back: %v", r.desc, lag.Id, err))
+		return
+	}
+	r.note(fmt.Sprintf("node %d back", lag.Id))
+	rec.Count("removal_while_member_down_histories", 1)
+	phase := "after-catch-up-by-log-of-a-member-that-was-down-during-the-removal"
+	if compacted {
+		phase = "after-catch-up-by-snapshot-of-a-member-that-was-down-during-the-removal"
+	}
+	if !r.converge(append(up, lag), want, phase, bookSym) {
+		return
+	}
+	rec.Seen("phases", phase)
+	rec.Case(mon.Digest(r.desc, lag.Id, gone.Id, compacted), true)
 }
 
 // A removed node re-joins through a member that has not yet applied the
